@@ -305,6 +305,7 @@ func (v *Verifier) verifyFunction(key string) (res *FuncResult) {
 	// vacuity cover: preconditions satisfiable
 	cov := fr.addObl("cover", "requires-satisfiable", "false", "preconditions and type facts are satisfiable (must NOT be provable)", "", con.Props, true)
 	cov.Bounded = ""
+	fr.bodyStart = len(c.asserts)
 	fr.run()
 	// at least one return reachable
 	if len(fr.rets) > 0 {
